@@ -302,3 +302,22 @@ _generic("C12", norm_props,
                "template records (their unconstrained parameters are random reals: the expectation "
                "'= 1' is the specification's, the comparison is numeric). Gaussian inputs are "
                "covered only through the compiled symbolic integral."))
+
+from . import init_props  # noqa: E402  pylint: disable=wrong-import-position
+
+_generic("C17", init_props,
+         "TLC enumerates initialisation scenarios: 1-3 symbolic weight tensors over a shared input "
+         "layer (equal shapes fold together when folding is on), each with its own initialiser "
+         "(constant scalar, constant array, Dirichlet with every non-negative and negative axis, "
+         "uniform, normal) and learnable flag, followed by 0-2 reset_parameters() calls; the "
+         "specification states per tensor the clause that must hold (exact values; sums to one "
+         "along the declared axis of the symbolic tensor; bounds; moments; requires_grad = "
+         "learnable). The replayer compiles with fold / optimize in {F,T}^2 and reads every tensor "
+         "through its registry slice after compilation and after each reset.",
+         "Exhaustive TLC enumeration of initialiser x axis x fold-group scenarios with the expected "
+         "clause from the specification; replay through compile / reset_parameters and the registry.",
+         "TLA+ scenario enumeration (InitSys.tla) + replay through compile, reset_parameters and "
+         "registry slices",
+         note=("Trusted base: TLC, the replayer; normal initialisers are only checked by a loose "
+               "6-sigma bound on the sample mean of the few entries (statistical clause); Dirichlet "
+               "concentration values other than the default are not varied."))
